@@ -305,7 +305,7 @@ DRIVERS = {'pipe': drv_pipe, 'race': drv_race}
 
 def run(name, tier, seed, ctx):
     if name not in DRIVERS:
-        import procs_tmux, procs_conv  # register the interactive drivers
+        import procs_tmux, procs_conv, procs_prev  # register the interactive drivers
     return DRIVERS[name](tier, seed, ctx)
 
 
@@ -321,6 +321,9 @@ def replay(rp, ctx):
         p = subprocess.run([ctx['fzf']] + pr['argv'], input=stream, stdout=subprocess.PIPE, stderr=subprocess.PIPE, env=env, timeout=120)
         line = lhs + ' => %d %s' % (p.returncode, enc_bytes(p.stdout))
         return evaluate(ctx['driver'], [line])
+    if pr.get('kind') == 'tmux-preview':
+        import procs_prev
+        return procs_prev.replay(rp, ctx)
     if pr.get('kind') == 'tmux-conv':
         import procs_conv
         return procs_conv.replay(rp, ctx)
